@@ -20,14 +20,16 @@ def run(ctx):
     # the whole family once more on a gateway whose string coercion was reconfigured (nothing about channels, closes, errors or
     # remote_exec may depend on the coercion switches)
     opts.append({"post_yields": True, "reconfigure": (False, True)})
+    # the real SocketIO over the scripted socket (partial sends, chunked receives)
+    opts.append({"post_yields": True, "transport": "socket", "chunking": "random"})
     if not ctx.quick:
-        opts.append({"post_yields": True, "transport": "socket", "chunking": "random"})
+        opts.append({"post_yields": False, "transport": "socket"})
         opts.append({"post_yields": False, "reconfigure": (True, True)})
     jobs = gc.jobs_for(progs, 24 if ctx.quick else 120, 10 if ctx.quick else 40, ctx.seed, opts)
     # preemption-bounded systematic search (every schedule with <= 1 preemption, yields before and after each operation)
     searches = [(p, 1, 250 if ctx.quick else 6000, {"post_yields": True}) for p in progs[: 6 if ctx.quick else 14]]
     life = gc.chanlife_part(ctx, ["C03."], 3 if ctx.quick else 5)
-    res = gc.run_and_judge(ctx, jobs, ["C03."], lambda evs: any(e["ev"] == "ret" and e["op"] == "receive" and e["res"] == "EOF" for e in evs) and any(e["ev"] == "ret" and e["op"] in ("send", "isclosed") for e in evs), None, searches=searches)
+    res = gc.run_and_judge(ctx, jobs, ["C03.", "C10.endmarker-before-last-item"], lambda evs: any(e["ev"] == "ret" and e["op"] == "receive" and e["res"] == "EOF" for e in evs) and any(e["ev"] == "ret" and e["op"] in ("send", "isclosed") for e in evs), None, searches=searches)
     gwrun.close_pool()
     ctx.coverage.update({
         "states": mc["states"], "transitions": mc["transitions"],
